@@ -1,6 +1,7 @@
 package main
 
 import (
+	"regexp"
 	"encoding/json"
 	"flag"
 	"fmt"
@@ -467,7 +468,18 @@ func (e *engine) checkBinding(fc *funcContract, fn *ssa.Function) error {
 				txt = txt[:i]
 			}
 			if !strings.Contains(strings.Join(strings.Fields(txt), " "), strings.Join(strings.Fields(ls.hint), " ")) {
-				return loopBindErr(fmt.Sprintf("%s:%d: loop %d of %s: hint %q does not occur in %q", fc.file, ls.line, k, fc.key, ls.hint, strings.TrimSpace(txt)))
+				// the loop header reads differently now (renamed variable, changed bound): the
+				// clauses are still tried against the loop with that ordinal - they either
+				// still hold, fail by name, or no longer evaluate (UNDECIDED)
+				fmt.Printf("note: %s:%d: loop %d of %s: hint %q does not occur in %q any more\n", fc.file, ls.line, k, fc.key, ls.hint, strings.TrimSpace(txt))
+				// a pure renaming of locals in the loop header: remember old name -> new name
+				for o, n := range renamedIdents(ls.hint, txt) {
+					if fc.aliases == nil {
+						fc.aliases = map[string]string{}
+					}
+					fc.aliases[o] = n
+					fmt.Printf("note: %s reads local %q as %q (renamed in the loop header)\n", fc.key, o, n)
+				}
 			}
 		}
 	}
@@ -486,6 +498,43 @@ func (e *engine) checkBinding(fc *funcContract, fn *ssa.Function) error {
 		}
 		if n != want {
 			return fmt.Errorf("%s:%d: contract header of %s has %d parameters, function has %d", fc.file, fc.line, fc.key, n, want)
+		}
+	}
+	return nil
+}
+
+var tokRe = regexp.MustCompile(`[A-Za-z_][A-Za-z0-9_]*|\d+|[^\sA-Za-z0-9_]`)
+var identRe = regexp.MustCompile(`^[A-Za-z_][A-Za-z0-9_]*$`)
+
+// renamedIdents: if the loop hint occurs in the loop header up to a consistent renaming of
+// identifiers, that renaming
+func renamedIdents(hint, header string) map[string]string {
+	ht := tokRe.FindAllString(hint, -1)
+	tt := tokRe.FindAllString(header, -1)
+	for start := 0; start+len(ht) <= len(tt); start++ {
+		m := map[string]string{}
+		ok := true
+		for i, h := range ht {
+			t := tt[start+i]
+			if h == t {
+				if prev, seen := m[h]; seen && prev != t {
+					ok = false
+					break
+				}
+				continue
+			}
+			if !identRe.MatchString(h) || !identRe.MatchString(t) {
+				ok = false
+				break
+			}
+			if prev, seen := m[h]; seen && prev != t {
+				ok = false
+				break
+			}
+			m[h] = t
+		}
+		if ok && len(m) > 0 {
+			return m
 		}
 	}
 	return nil
